@@ -69,6 +69,10 @@ fn invariant_of(d: &Dump, chain: &ChainRef, who: &str) -> Result<(), String> {
 /// attempts), then recover and quiesce.
 fn run_once(prior: &[Act], n: usize, kind0: StoreKind, faults: &[Fault], interleave: u8) -> Result<RunOut, (String, String)> {
     let chain = ChainRef::new();
+    if interleave == 3 {
+        // fresh-from-snapshot stratum: the first version added gets a snapshot
+        chain.0.borrow_mut().urgency_script.push_back(taskchampion::server::SnapshotUrgency::High);
+    }
     let mut reps: Vec<R> = (0..n).map(|i| new_replica(i, if i == 0 { kind0 } else { StoreKind::Mem }, &chain)).collect();
     let fail = |s: &str, m: String| (s.to_string(), m);
     for act in prior {
@@ -78,6 +82,14 @@ fn run_once(prior: &[Act], n: usize, kind0: StoreKind, faults: &[Fault], interle
                 block_on(reps[*r].rep.commit_operations(conc)).map_err(|e| fail("harness", e.to_string()))?;
             }
             Act::Sync { r } => sync(&mut reps[*r], &chain, false).map_err(|e| fail("harness", format!("prior sync: {e:#}")))?,
+        }
+    }
+    if interleave == 3 {
+        // the server has reclaimed the versions its snapshot covers (docs/src/snapshots.md)
+        let mut c = chain.0.borrow_mut();
+        match c.snapshots.last().map(|(v, _, _)| *v).and_then(|v| c.index_of(v)) {
+            Some(idx) => c.first_available = idx + 1,
+            None => return Err(fail("harness", "no snapshot was uploaded in the prior history".into())),
         }
     }
     let v0 = chain.0.borrow().versions.len();
@@ -238,11 +250,34 @@ fn gen_prior(rng: &mut Rng, n: usize, big: bool) -> Vec<Act> {
     h
 }
 
+/// Prior history for the fresh-from-snapshot stratum: replica 0 does nothing; replica 1 builds a
+/// few tasks and syncs (the server asks for, and stores, a snapshot of that version), then
+/// optionally more versions follow.
+fn gen_prior_fresh(rng: &mut Rng, n: usize) -> Vec<Act> {
+    let cfg = GenCfg { replicas: n, tasks: 1 + rng.below(4), props: 1 + rng.below(3), actions: 0, max_batch: 3, big_per_mille: 0, sync_per_cent: 0 };
+    let mut g = Gen::new(rng.clone(), cfg);
+    let mut h = vec![];
+    let mut ops: Vec<AbsOp> = g.uuids.clone().into_iter().map(|u| AbsOp::Set(u, "p0".into(), "0".into(), ts(0))).collect();
+    for _ in 0..g.rng.below(4) {
+        ops.push(g.abs_op(1));
+    }
+    h.push(Act::Commit { r: 1, ops });
+    h.push(Act::Sync { r: 1 });
+    for _ in 0..g.rng.below(3) {
+        let ops = (0..1 + g.rng.below(3)).map(|_| g.abs_op(1)).collect();
+        h.push(Act::Commit { r: 1, ops });
+        h.push(Act::Sync { r: 1 });
+    }
+    *rng = g.rng;
+    h
+}
+
 fn sweep(tag: &'static str, i: u64, seed: u64, big: bool, sqlite: bool, seqs: bool, interleave: bool, out: &mut CaseOut) {
-    let mode: u8 = if interleave { 1 } else { 0 };
+    let fresh = tag == "c04-fresh-from-snapshot";
+    let mode: u8 = if fresh { 3 } else if interleave { 1 } else { 0 };
     let mut rng = Rng::derive(seed, tag, i);
     let n = 2 + rng.below(2);
-    let prior = gen_prior(&mut rng, n, big);
+    let prior = if fresh { gen_prior_fresh(&mut rng, n) } else { gen_prior(&mut rng, n, big) };
     let kind0 = if sqlite { StoreKind::Sqlite } else { StoreKind::Mem };
     let replay = json!({"stratum": tag, "index": i, "prior": show_history(&prior)});
     out.evaluations = 0;
@@ -269,7 +304,9 @@ fn sweep(tag: &'static str, i: u64, seed: u64, big: bool, sqlite: bool, seqs: bo
     } else {
         RunOut { final_tasks: Tasks::new(), storage_calls: 0, server_requests: 0, names: vec![], versions: 0, dup_ops: 0, fault_hit: false, target_pushed: 0, target_pulled: 0, target_on_chain: false }
     };
-    if reference.target_pushed == 0 || reference.target_pulled == 0 {
+    if fresh {
+        out.count("fresh_replica_targets", 1);
+    } else if reference.target_pushed == 0 || reference.target_pulled == 0 {
         // the target sync must both pull and push to be interesting; count it but do not sweep
         out.count("targets_without_both_directions", 1);
     }
@@ -350,7 +387,7 @@ fn sweep(tag: &'static str, i: u64, seed: u64, big: bool, sqlite: bool, seqs: bo
     out.count("storage_calls_in_target", reference.storage_calls);
     out.count("server_requests_in_target", reference.server_requests);
     out.count("histories_swept", 1);
-    if reference.target_pushed >= 1 && reference.target_pulled >= 1 {
+    if (reference.target_pushed >= 1 && reference.target_pulled >= 1) || fresh {
         out.nontrivial = Some(fnv(format!("{:?}", show_history(&prior)).as_bytes()));
     }
     if i < 2 {
@@ -443,6 +480,16 @@ pub fn run(ctx: &Ctx) -> Outcome {
             out
         });
     }
+    if want("c04-fresh-from-snapshot") {
+        // a brand-new replica whose first sync starts from the server's snapshot (older versions
+        // reclaimed), interrupted at every storage call and server request
+        let (lo, hi) = range(ctx.tier.pick(24, 1500));
+        run_cases(&mut acc, "c04-fresh-from-snapshot", hi - lo, |i| {
+            let mut out = CaseOut::new();
+            sweep("c04-fresh-from-snapshot", i + lo, seed, false, (i + lo) % 3 == 2, false, false, &mut out);
+            out
+        });
+    }
     if want("c04-interleaved") {
         // another replica syncs, overrides one of the target's properties with an earlier timestamp
         // and pushes between the (interrupted) first attempt and the retry
@@ -468,7 +515,7 @@ pub fn run(ctx: &Ctx) -> Outcome {
     }
     Outcome {
         level: "fault_enumeration",
-        rule: "for each seeded history (2-3 replicas; target sync of replica 0 with incoming and outgoing versions; big-value stratum with several batches; SQLite stratum where a stop also reopens the database in a fresh handle): fault-free reference run, then one re-run per storage call x {error, stop} and per server request x {fail before, perform then lose reply}, plus a stratum of random sequences of 1-3 consecutive faults, and a stratum in which another replica pulls, overrides one of the target's properties with an earlier timestamp and pushes between the interrupted attempt and the retry; evaluations = runs (reference + faulted); non-trivial = target sync both pulled and pushed; distinct by prior history".into(),
+        rule: "for each seeded history (2-3 replicas; target sync of replica 0 with incoming and outgoing versions; big-value stratum with several batches; SQLite stratum where a stop also reopens the database in a fresh handle; interleaved stratum where another replica writes and syncs between the interrupted and the repeated sync; fresh-from-snapshot stratum where a brand-new replica's first sync starts from the server's snapshot with the covered versions reclaimed): fault-free reference run, then one re-run per storage call x {error, stop} and per server request x {fail before, perform then lose reply}, plus a stratum of random sequences of 1-3 consecutive faults, and a stratum in which another replica pulls, overrides one of the target's properties with an earlier timestamp and pushes between the interrupted attempt and the retry; evaluations = runs (reference + faulted); non-trivial = target sync both pulled and pushed; distinct by prior history".into(),
         exhaustive: None,
         acc,
         assumptions: vec![
